@@ -86,6 +86,56 @@ def frame_cases(run, n):
             return
 
 
+def graph_tables(run, sc, n):
+    """the graph's own de-normalisation (get_normalized_nodes_df, whole and per namespace): the node-reference
+    columns of every row name exactly the NodeIds the documents named, whichever namespace the row is asked through"""
+    import pandas as pd
+    from opcua_tools import UAGraph
+    rng = run.rng
+    for j in range(n):
+        g = D.gen_graph(rng, hostile=False, closed=True, values_ok=False)
+        files = D.serialise(rng, g)
+        case = {"graph_tables": j, "files": {k: files[k] for k in sorted(files)}}
+        try:
+            G = UAGraph.from_path(sc.write(sc.sub("gt%d" % j), files))
+        except Exception:  # noqa: BLE001  (building generated sets is C11's business)
+            continue
+        run.case({"graph_tables": j, "nodes": len(g["nodes"])}, tag="graph_tables")
+        exp = D.expected_rows(g)
+
+        def nid(x, G=G):
+            if x is None or x is pd.NA or (isinstance(x, float) and x != x):
+                return None
+            try:
+                return [G.namespaces[x.namespace], x.nodeid_type.value, str(x.value)]
+            except Exception:  # noqa: BLE001
+                return ["<not a NodeId>", repr(x)]
+        try:
+            for uri in [None] + [u for u in G.namespaces[1:] if u != "None"]:
+                t = G.get_normalized_nodes_df(uri)
+                seen = set()
+                for rec in t.to_dict("records"):
+                    k = nid(rec["NodeId"])
+                    e = exp.get(tuple(k)) if k else None
+                    if e is None:
+                        continue                     # a base-nodeset node
+                    seen.add(tuple(k))
+                    for col in ("DataType", "ParentNodeId", "MethodDeclarationId"):
+                        want = e["attrs"].get(col)
+                        got = nid(rec.get(col))
+                        if got != (None if want is None else [want[0], want[1], str(want[2])]):
+                            run.violation(case, {"what": "get_normalized_nodes_df(%r): column %s of node %r is %r, the document names %r" % (uri, col, k, got, want),
+                                                 "call": "UAGraph.get_normalized_nodes_df(namespace_uri)"})
+                            return
+                want_keys = {k for k in exp if uri is None or k[0] == uri}
+                if seen != want_keys:
+                    run.violation(case, {"what": "get_normalized_nodes_df(%r) rows != nodes of that namespace" % uri, "missing": sorted(want_keys - seen)[:5], "extra": sorted(seen - want_keys)[:5]})
+                    return
+        except Exception as e:  # noqa: BLE001
+            run.violation(case, {"what": "get_normalized_nodes_df raised", "impl": type(e).__name__ + ": " + str(e)[:300]})
+            return
+
+
 def explore(run):
     rng = run.rng
     thorough = run.tier == "thorough"
@@ -93,6 +143,9 @@ def explore(run):
     if run.full():
         return
     with minibase.Scratch() as sc:
+        graph_tables(run, sc, 60 if thorough else 6)
+        if run.full():
+            return
         for i in range(900 if thorough else 90):
             g = D.gen_graph(rng, hostile=rng.random() < 0.3, closed=rng.random() < 0.4, values_ok=False)
             files = D.serialise(rng, g, one_file=rng.random() < 0.3)
